@@ -114,6 +114,7 @@ type Remote struct {
 	CreateErr error
 	ExecErr   error
 	DelayMs   int64
+	Delivered []string
 	Queries   int
 	qmu       sync.Mutex
 }
@@ -130,6 +131,7 @@ func (r *Remote) NewInstantQuery(opts *promql.QueryOpts, qs string, ts time.Time
 	r.Queries++
 	r.qmu.Unlock()
 	if r.CreateErr != nil {
+		r.deliver(r.CreateErr)
 		return nil, r.CreateErr
 	}
 	q, err := r.inner.NewInstantQuery(opts, qs, ts)
@@ -145,6 +147,7 @@ func (r *Remote) NewRangeQuery(opts *promql.QueryOpts, qs string, start, end tim
 	r.Queries++
 	r.qmu.Unlock()
 	if r.CreateErr != nil {
+		r.deliver(r.CreateErr)
 		return nil, r.CreateErr
 	}
 	q, err := r.inner.NewRangeQuery(opts, qs, start, end, step)
@@ -152,6 +155,15 @@ func (r *Remote) NewRangeQuery(opts *promql.QueryOpts, qs string, start, end tim
 		return nil, err
 	}
 	return &remoteQuery{Query: q, r: r}, nil
+}
+
+func (r *Remote) deliver(err error) {
+	var ie *store.InjectedError
+	if errors.As(err, &ie) {
+		r.qmu.Lock()
+		r.Delivered = append(r.Delivered, ie.ID)
+		r.qmu.Unlock()
+	}
 }
 
 type remoteQuery struct {
@@ -173,6 +185,7 @@ func (q *remoteQuery) Exec(ctx context.Context) *promql.Result {
 		sched.Yield("remote.delayed")
 	}
 	if q.r.ExecErr != nil {
+		q.r.deliver(q.r.ExecErr)
 		return &promql.Result{Err: q.r.ExecErr}
 	}
 	return q.Query.Exec(ctx)
@@ -182,6 +195,7 @@ func (q *remoteQuery) Exec(ctx context.Context) *promql.Result {
 type Outcome struct {
 	Created      bool              `json:"created"`
 	CreateErr    string            `json:"create_err,omitempty"`
+	CreateErrVal error             `json:"-"`
 	Unsupported  bool              `json:"unsupported,omitempty"`
 	ClientPanic  string            `json:"client_panic,omitempty"`
 	Fallback     bool              `json:"fallback,omitempty"`
@@ -199,6 +213,7 @@ type Outcome struct {
 	CancelStep   int               `json:"cancel_step,omitempty"`
 	FirstCBStep  int               `json:"first_cb_step,omitempty"`
 	Acct         *store.Acct       `json:"-"`
+	PartAccts    []*store.Acct     `json:"-"`
 	Raw          parser.Value      `json:"-"`
 	ErrVal       error             `json:"-"`
 	ExprType     parser.ValueType  `json:"-"`
@@ -256,8 +271,9 @@ type QueryRun struct {
 	Op       Op
 	Eng      *Engine
 	Store    storage.Queryable
-	Sim      *sched.Sim   // may be nil (free-running)
-	Acct     *store.Store // instrumented store to account on (nil for distributed-only)
+	Sim      *sched.Sim     // may be nil (free-running)
+	Acct     *store.Store   // instrumented store to account on (nil for distributed-only)
+	Parts    []*store.Store // distributed: the partition storages behind the remote engines
 	NoClose  bool
 	Contract bool
 }
@@ -320,6 +336,7 @@ func RunQuery(r QueryRun) (o *Outcome) {
 	}
 	if err != nil {
 		o.CreateErr = err.Error()
+		o.CreateErrVal = err
 		o.Unsupported = errors.Is(err, parse.ErrNotSupportedExpr) || errors.Is(err, parse.ErrNotImplemented)
 		return o
 	}
@@ -339,13 +356,25 @@ func RunQuery(r QueryRun) (o *Outcome) {
 		}
 		return 0
 	}
+	cancelFn := func() {
+		if o.CancelStep == 0 {
+			o.CancelStep = step()
+		}
+		cancel()
+	}
 	if r.Acct != nil {
-		r.Acct.BeginOp(op.Faults, func() {
-			if o.CancelStep == 0 {
-				o.CancelStep = step()
-			}
-			cancel()
-		})
+		f := op.Faults
+		if op.FaultPart > 0 && len(r.Parts) > 0 {
+			f = nil
+		}
+		r.Acct.BeginOp(f, cancelFn)
+	}
+	for i, ps := range r.Parts {
+		var f []store.Fault
+		if op.FaultPart == i+1 {
+			f = op.Faults
+		}
+		ps.BeginOp(f, cancelFn)
 	}
 	clientDone := make(chan struct{})
 	if op.ClientCancelStep > 0 && r.Sim != nil {
@@ -364,8 +393,13 @@ func RunQuery(r QueryRun) (o *Outcome) {
 			} else {
 				q.Cancel()
 			}
-			if o.ExecStart != 0 && o.ExecEnd == 0 && r.Acct != nil {
-				r.Acct.NoteClientCancel()
+			if o.ExecStart != 0 && o.ExecEnd == 0 {
+				if r.Acct != nil {
+					r.Acct.NoteClientCancel()
+				}
+				for _, ps := range r.Parts {
+					ps.NoteClientCancel()
+				}
 			}
 		})
 	} else {
@@ -389,6 +423,9 @@ func RunQuery(r QueryRun) (o *Outcome) {
 	}
 	if r.Acct != nil {
 		o.Acct = r.Acct.Acct()
+	}
+	for _, ps := range r.Parts {
+		o.PartAccts = append(o.PartAccts, ps.Acct())
 	}
 	// The result is inspected before the query is closed: on the fallback path Close hands the
 	// result's point slices back to the reference engine's pool (its documented contract).
